@@ -119,6 +119,20 @@ TEXT.update({
         design_ref='6.6', level_note=MAPPER_NOTE),
 })
 
+TEXT.update({
+    'C18': dict(
+        engine='kani-and-native-enumeration',
+        technique='Kani (CBMC) harnesses with harness-level postconditions over the real dev_input_rw.rs, complete over all key codes for one record; exhaustive native enumeration through a pipe on every run',
+        level_text=('Bounded model checking plus exhaustive enumeration, not deduction: send builds its records through a closure that captures &mut and the reader goes through nix read and a derive, so Verus cannot take '
+                    'them. Kani proves on the real files (nix read/write stubbed): for every u16 that is a known key code and press/release, send writes once, 48 bytes, [16 zero bytes | EV_KEY | code | 1 or 0][24 zero bytes]; the empty '
+                    'batch is one SYN record; a two-event batch puts record i at offset 24 i with one SYN at the end; next returns exactly the EV_KEY value-0/1 known-code records and skips every other 24-byte record '
+                    '(value 2, other types, unknown codes; all four branches covered). These run in the thorough tier (about 35 min) and are recorded per content hash. Every run (quick too) executes the same checks natively '
+                    'and exhaustively over all 484 codes through a real pipe, plus random batches of up to 39 events and the writer-reader round trip.'),
+        design_ref='6.18',
+        level_note=('Trusted: rustc, Kani, CBMC; the read/write stubs; libc::input_event layout on x86-64. Bounded: batch length (0, 1, 2 in Kani; random < 40 natively). The quick tier decides with the exhaustive native enumeration '
+                    'and reports whether a Kani run is recorded for exactly this source text.')),
+})
+
 NOT_APPLICABLE = {
     'C15': 'both sides are serde / serde_json (derive(Serialize), serde_json::Value, enum_utils FromStr): no contract within reach of Verus or Kani can express or decide it without assuming the behaviour of the libraries, i.e. the property (DESIGN 6.15)',
     'C16': 'keyboard_listing.rs is str splitting/searching iterators, /proc and /sys I/O and an external glob crate; Verus does not reason about str contents and Kani does not terminate on symbolic text (DESIGN 6.16)',
